@@ -60,6 +60,10 @@ claim('C16', 'Bounded: list(scfg) and the region-concealing view of every level 
       'property-level contract checked on the enumerated scope; supporting function contracts proved by pyvc/z3', '5.C16')
 
 NOT_YET = 'check not built yet in this session (see DESIGN.md section 9 for the order of work)'
+claim('C17', 'Bounded (claimed as such): the DOT source of every enumerated graph at every stage prefix is parsed and compared with the hierarchy (nodes, nested clusters, '
+      'solid/dashed edges to innermost headers, labels); arm coverage of render_block over all block classes is a complete finite check.',
+      'graphviz Python layer trusted; no deductive contract on rendering.py (external object, string formatting)',
+      'finite arm-coverage check (E3) + rendering contract evaluated on the enumerated scope', '5.C17', category='exploration')
 claim('C18', 'Mixed: NameGenerator.new_block_name/new_region_name/new_var_name are proved to return name(kind, counter) and advance exactly that counter; injectivity '
       'of each name shape and pairwise disjointness of the shapes (read from the source) are discharged by cvc5 on strings; histories of requests on a shared generator '
       'and every name handed out during real pipeline runs are checked exhaustively up to the bounds (bounded).',
